@@ -88,7 +88,13 @@ def net_p_only():
                  "struct": ("pipe", "in_service", [1], False)}
 
 
-NETS = {"p_only": net_p_only, "deadend": net_deadend_source, "heating_loop": net_heating_loop, "branched": net_branched, "gas": net_gas, "versatility": net_versatility}
+def net_branched_relabel():
+    """the branched net; its structural edit gives the second sink another index label (7 instead of 1)"""
+    net, knobs = net_branched()
+    return net, dict(knobs, struct=("sink", "__index__", [1], 7))
+
+
+NETS = {"branched_relabel": net_branched_relabel, "p_only": net_p_only, "deadend": net_deadend_source, "heating_loop": net_heating_loop, "branched": net_branched, "gas": net_gas, "versatility": net_versatility}
 THERMAL_NETS = ("heating_loop", "branched")
 
 
@@ -299,11 +305,28 @@ def apply_edit(net, knobs, op, saved):
         return
     key = EDIT_KEY[op["op"]]
     tbl, col, idx, val = knobs[key]
+    if col == "__index__":
+        # the row is given another index label (as after dropping an element and creating it again under a new index): the same
+        # physical system, another description; undone by restoring the label
+        if op["op"] in APPLY_OPS:
+            net[tbl] = net[tbl].rename(index={idx[0]: val})
+        else:
+            net[tbl] = net[tbl].rename(index={val: idx[0]})
+        return
     if op["op"] in APPLY_OPS:
         saved[key] = net[tbl].loc[idx, col].copy()
         net[tbl].loc[idx, col] = val
     else:
         net[tbl].loc[idx, col] = saved[key]
+
+
+def apply_knob(net, knob):
+    """put a fresh net into the edited condition of a knob (used to rebuild the description a history has reached)"""
+    tbl, col, idx, val = knob
+    if col == "__index__":
+        net[tbl] = net[tbl].rename(index={idx[0]: val})
+    else:
+        net[tbl].loc[idx, col] = val
 
 
 def run_options(op):
